@@ -61,6 +61,7 @@ struct Ledger
     // returns false if the object is not alive at exactly this address
     bool alive(const void* p, std::size_t n) const
     {
+        HarnessScope hs;
         auto it = live.find(reinterpret_cast<std::uintptr_t>(p));
         return it != live.end() && it->second.size == n;
     }
